@@ -348,6 +348,10 @@ def B.CPc.point : B.CPc → String
   | .weightRead => "wu.read" | .upUpdate .. => "upsert.update" | .upWeightOf .. => "upsert.weight_of"
   | .upTtlPut .. => "ttl.put" | .upTtlDelete .. => "ttl.delete" | .upTtlRemove .. => "ttl.update.remove"
   | .upTtlInsert .. => "ttl.update.insert"
+  | .refStore _ => "store.get" | .refPool .. => "pool.add" | .shutCas => "shutdown.cas" | .shutSendCmd => "cmd.send"
+  | .shutSendBuf => "buf.send_shutdown" | .shutConsumerFlag => "shutdown.consumer_flag" | .shutTickerFlag => "shutdown.ticker_flag"
+  | .shutStoreClear => "shutdown.store_clear" | .shutKwClear => "shutdown.kw_clear" | .shutWuZero => "shutdown.wu_zero"
+  | .shutAfClear => "shutdown.af_clear" | .shutStatsClear => "shutdown.stats_clear" | .shutTtlClear => "shutdown.ttl_clear"
 
 def B.BState.pcs (b : B.BState) : String :=
   let cs := joinWith " " ((List.range b.cl.length).map (fun i => s!"c{i}={(b.cl.getD i .idle).point}"))
@@ -362,6 +366,8 @@ def parseReq? (toks : List String) : Option B.Req :=
   | ["delete", k] => do pure (.delete (← k.toNat?))
   | ["get", k] => do pure (.get (← k.toNat?))
   | ["weight"] => some .weight
+  | ["getref", k] => do pure (.getRef (← k.toNat?))
+  | ["shutdown"] => some .shutdown
   | ["upsert", k, v, w, t, rm] => do pure (.upsert (← k.toNat?) (← parseOptNat? v) (← parseOptInt? w) (← parseOptNat? t) (rm == "1"))
   | _ => none
 
@@ -402,9 +408,13 @@ def driveLine (d : DriverState) (line : String) : DriverState × Option String :
   | "BC" :: rest0 =>
     let rest := rest0.filter (fun t => !t.startsWith "#")
     let clients := ((rest.filterMap (fun t => let (k, v) := kvOf t; if k == "clients" then v.toNat? else none)).head?).getD 1
-    (match parseCfg (rest.filter (fun t => (kvOf t).1 != "clients")) with
+    let shardMap : List (Nat × Nat) := ((rest.filterMap (fun t => let (k, v) := kvOf t; if k == "sshard" then some v else none)).head?).map
+      (fun v => (v.splitOn ",").filterMap (fun kv => match kv.splitOn ":" with
+        | [a, b] => (match a.toNat?, b.toNat? with | some x, some y => some (x, y) | _, _ => none)
+        | _ => none)) |>.getD []
+    (match parseCfg (rest.filter (fun t => (kvOf t).1 != "clients" && (kvOf t).1 != "sshard")) with
      | some (cfg, now, seeds) =>
-       let b := B.BState.init cfg now seeds clients
+       let b := { B.BState.init cfg now seeds clients with storeShard := shardMap }
        ({ d with bst := some b, broken := false }, some s!"R init | {b.pcs} | {b.snap}")
      | none => ({ d with bst := none, broken := true }, some "R bad-cfg"))
   | "B" :: rest0 =>
